@@ -2,7 +2,7 @@
    and planners on a query, and the functions that compare it with the model.
    Executable definitions only. *)
 From Coq Require Import List ZArith QArith String Ascii Bool Uint63.
-From Qryn Require Import model.TqSql model.Traceql model.TraceqlPlan model.TraceqlSem.
+From Qryn Require Import model.TqSql model.Traceql model.TraceqlPlan model.TraceqlSem model.TraceqlKey.
 Import ListNotations.
 Open Scope string_scope.
 
@@ -56,7 +56,8 @@ Record case := {
   c_mode : mode;
   c_ctx : ctx;
   c_obs : list (Z * obs);     (* per call: RandomFilter.I of that call, observation *)
-  c_dbs : list db             (* generated attribute-index contents for the semantic oracle *)
+  c_dbs : list db;            (* generated attribute-index contents for the semantic oracle *)
+  c_keys : list string        (* what the REAL AttrSelector.String() printed for every term of the script (TraceqlKey.script_terms order) *)
 }.
 
 Definition with_rf_i (c : ctx) (i : Z) : ctx :=
@@ -116,7 +117,10 @@ Fixpoint script_oracles_ok (s : script) : bool :=
 (* codes: 1 = outcome class differs (statement / error class / panic); 2 = text of the model's
    statement differs from the observed text; 3 = the dumped object tree does not print to the
    observed text (the dump or its translation is wrong); 4 = library values inconsistent;
-   5 = a numeric literal, as printed into the statement, does not parse back to the query's number *)
+   5 = a numeric literal, as printed into the statement, does not parse back to the query's number;
+   6 = a term of the parsed script is outside what the grammar is said to guarantee (TraceqlKey.terms_grammar: the hypothesis
+       from which keys_ok is PROVED), 7 = the de-duplication key of the model (attr_sel_string) is not the text the real
+       AttrSelector.String() printed for that term *)
 Definition text_ok (rendered : string) (fp : int * int * int) (text : option string) : bool :=
   fp_eqb (fingerprint rendered) fp && match text with Some t => String.eqb rendered t | None => true end.
 
@@ -137,6 +141,7 @@ Fixpoint calls_mismatch (cs : case) (n : nat) (l : list (Z * obs)) : list Z :=
 
 Definition case_mismatch (cs : case) : list Z :=
   ((if script_oracles_ok (c_q cs) then [] else [4%Z]) ++ (if script_lits_ok (c_q cs) then [] else [5%Z])
+   ++ (if script_terms_grammar (c_q cs) then [] else [6%Z]) ++ (if keys_tie (c_q cs) (c_keys cs) then [] else [7%Z])
    ++ calls_mismatch cs 1 (c_obs cs))%list.
 
 Definition mismatches (l : list case) : list (Z * Z) :=
